@@ -78,9 +78,9 @@ func StubGet(c *gin.Context, key any) (any, bool) {
 	v, ok := Of(c).Keys[key]
 	return v, ok
 }
-func StubSet(c *gin.Context, key any, val any)     { Of(c).Keys[key] = val }
-func StubJSON(c *gin.Context, code int, obj any)  { s := Of(c); s.Status = code; s.Writes++ }
-func StubStatus(c *gin.Context, code int)         { Of(c).Status = code }
+func StubSet(c *gin.Context, key any, val any)   { Of(c).Keys[key] = val }
+func StubJSON(c *gin.Context, code int, obj any) { s := Of(c); s.Status = code; s.Writes++ }
+func StubStatus(c *gin.Context, code int)        { Of(c).Status = code }
 func StubString(c *gin.Context, code int, format string, values ...any) {
 	s := Of(c)
 	s.Status = code
@@ -111,11 +111,11 @@ func StubQuery(c *gin.Context, key string) string { return Of(c).Params["?"+key]
 // router event log
 
 type Event struct {
-	Kind    string // use | route | noroute | group
-	Engine  *gin.Engine
-	Path    string
-	Method  string
-	Handler gin.HandlerFunc
+	Kind      string // use | route | noroute | group
+	Engine    *gin.Engine
+	Path      string
+	Method    string
+	Handler   gin.HandlerFunc
 	NHandlers int
 }
 
@@ -189,8 +189,8 @@ func StubPOST(g *gin.RouterGroup, relativePath string, handlers ...gin.HandlerFu
 func StubAny(g *gin.RouterGroup, relativePath string, handlers ...gin.HandlerFunc) gin.IRoutes {
 	return route(g, "ANY", relativePath, handlers)
 }
-func StubWrapH(h http.Handler) gin.HandlerFunc         { return func(c *gin.Context) {} }
-func StubWrapF(f http.HandlerFunc) gin.HandlerFunc     { return func(c *gin.Context) {} }
+func StubWrapH(h http.Handler) gin.HandlerFunc     { return func(c *gin.Context) {} }
+func StubWrapF(f http.HandlerFunc) gin.HandlerFunc { return func(c *gin.Context) {} }
 
 // ---------------------------------------------------------------------------
 
